@@ -73,6 +73,7 @@ class Session:
         self.drivers = []
         self.known_hits = []
         self.notes = []
+        self.drift = []
         self._metas = []
 
     def cleanup(self):
@@ -216,7 +217,8 @@ class Session:
         self._metas.append(meta)
         return meta
 
-    def validate(self, meta, module, cfg=None, known=(), timeout=1800, heap="3g", shard=60000, extra_files=(), par=8, constants=None):
+    def validate(self, meta, module, cfg=None, known=(), timeout=1800, heap="3g", shard=60000, extra_files=(), par=8, constants=None,
+                 drift=False):
         """Trace validation: TLC checks every record the driver observed against the trace spec (records are
         sharded over several TLC processes). Raises Violation for a record that breaks the spec and is not a
         listed known finding."""
@@ -292,6 +294,15 @@ class Session:
                 else:
                     self.traces += val
         if violation is not None:
+            if drift:
+                # a step-level divergence from a MECHANISM model is not a verdict about a property: the real code no longer
+                # works the way the how-layer model says (or the hook moved). The what-layer checks decide; this is recorded.
+                msg = "MECHANISM-DRIFT %s/%s: %s violated by an in-process trace of the real code; the model-checking result of " \
+                      "this mechanism model stops counting as evidence for this run" % (module, cfg, violation.invariant)
+                print(msg, flush=True)
+                self.notes.append(msg)
+                self.drift.append({"trace_spec": module + "/" + cfg, "invariant": violation.invariant, "record": str(violation.rec)[:500]})
+                return
             raise violation
         self.drivers.append({k: meta[k] for k in ("driver", "evaluations", "distinct_nontrivial", "rule", "exhaustive", "traces", "wall_s")}
                             | {"trace_spec": module + "/" + cfg, "extra": meta.get("extra")})
@@ -377,6 +388,7 @@ class Session:
                 "drivers": self.drivers,
                 "known_findings_hit": self.known_hits,
                 "notes": self.notes,
+                "mechanism_drift": self.drift,
                 "inproc": "available" if self.inproc_ok else "not used / unavailable",
                 "explanation": explanation or "",
             },
